@@ -328,7 +328,7 @@ def cargo_build(bins, features=()):
         import shutil
         shutil.copy(os.path.join(REPO, "Cargo.lock"), lock)
     feat = ("--features " + ",".join(features)) if features else ""
-    tdir = "target" + ("-" + "-".join(features) if features else "")
+    tdir = os.environ.get("RV_TARGET", "target") + ("-" + "-".join(features) if features else "")
     cmd = f"cargo build --offline {feat} " + " ".join(f"--bin {b}" for b in bins)
     t0 = time.time()
     rc, out = sh(cmd, cwd=HARNESS, timeout=3000, env={"CARGO_TARGET_DIR": os.path.join(HARNESS, tdir)})
